@@ -219,7 +219,7 @@ impl Property for C02 {
         256
     }
     fn required_counters(&self) -> Vec<&'static str> {
-        vec!["walks", "trees_with_links", "pruned_links", "shape_plain", "shape_prefixed", "shape_rooted", "shape_dots", "pruned_directories", "walk_root_expected", "base_noncanonical", "component_program_checks", "read_target_walks"]
+        vec!["walks", "trees_with_links", "pruned_links", "shape_plain", "shape_prefixed", "shape_rooted", "shape_dots", "pruned_directories", "walk_root_expected", "base_noncanonical", "component_program_checks", "read_target_walks", "caseless_component_other_casing"]
     }
     fn decode(&self, t: &mut Tape) -> Case {
         let tree = gen_tree(t, &TreeCfg { links: true, non_utf8: true, ..TreeCfg::default() });
@@ -227,6 +227,49 @@ impl Property for C02 {
         let shape = gen_shape(t, &tree, &base);
         let glob = gen_expr(t, &fs_glob_cfg(&tree));
         let follow = t.chance(64);
+        if t.chance(24) {
+            // case family: a caseless literal *component* whose directory exists in another casing
+            // (the walk's prefix / pruning must honour the flag exactly as matching does)
+            let cased: Vec<String> = tree
+                .nodes
+                .iter()
+                .filter(|n| n.kind == Kind::Dir && !n.path.contains(RAW))
+                .map(|n| n.path.clone())
+                .filter(|p| {
+                    let name = p.rsplit('/').next().unwrap_or("");
+                    name.to_uppercase() != name.to_lowercase()
+                })
+                .collect();
+            if !cased.is_empty() {
+                let d = t.pick(&cased);
+                let (parent, name) = match d.rsplit_once('/') {
+                    Some((p, n)) => (p.to_string(), n.to_string()),
+                    None => (String::new(), d.clone()),
+                };
+                let swapped: String = if name.to_uppercase() != name { name.to_uppercase() } else { name.to_lowercase() };
+                let sp = if parent.is_empty() { swapped.clone() } else { format!("{}/{}", parent, swapped) };
+                let mut tree = tree;
+                if !tree.nodes.iter().any(|n| n.path == sp) {
+                    tree.nodes.push(Node { path: sp.clone(), kind: Kind::Dir, unreadable: false });
+                    tree.nodes.push(Node { path: format!("{}/x.rs", sp), kind: Kind::File, unreadable: false });
+                    tree.nodes.push(Node { path: format!("{}/b", sp), kind: Kind::Dir, unreadable: false });
+                    tree.nodes.push(Node { path: format!("{}/b/a", sp), kind: Kind::File, unreadable: false });
+                }
+                let mut glob = literal_prefix(&parent, true);
+                glob.push(Tok::Lit { text: name, ci: true });
+                glob.push(Tok::Sep);
+                match t.below(3) {
+                    0 => glob.push(Tok::Zom { lazy: false }),
+                    1 => glob.push(Tok::Tree { lead: false, trail: false }),
+                    _ => {
+                        glob.push(Tok::Zom { lazy: false });
+                        glob.push(Tok::Sep);
+                        glob.push(Tok::Zom { lazy: false });
+                    },
+                }
+                return Case { tree, base: Base::Abs, shape: Shape::Plain, glob: normalize(&glob, true), follow };
+            }
+        }
         Case { tree, base, shape, glob, follow }
     }
     fn directed(&self) -> Vec<Case> {
@@ -343,6 +386,21 @@ impl Property for C02 {
         }
         if case.tree.nodes.iter().any(|n| matches!(n.kind, Kind::Link(_) | Kind::Dangling)) {
             st.count("trees_with_links");
+        }
+        {
+            // a caseless literal component and a directory that matches it only in another casing
+            let comps = crate::props::stacks::plain_components(&expr);
+            let hit = case.tree.nodes.iter().filter(|n| n.kind == Kind::Dir).any(|n| {
+                let names: Vec<&str> = n.path.split('/').collect();
+                let j = names.len() - 1;
+                match comps.get(j).map(|c| c.as_slice()) {
+                    Some([Tok::Lit { text, ci: true }]) => text != names[j] && text.to_lowercase() == names[j].to_lowercase(),
+                    _ => false,
+                }
+            });
+            if hit {
+                st.count("caseless_component_other_casing");
+            }
         }
         // expected
         let uni = if case.follow {
